@@ -56,6 +56,7 @@ structure Obs where
 inductive Clause
   | reachable_only | only_entitled | no_echo | no_duplicate | one_copy_per_endpoint | single_entry | only_master_crosses
   | logged_not_dropped | origin_zone_copied | master_by_names_and_connectedness | forwarded_when_reachable | same_master
+  | replay_only_entitled | replay_global_own_zone_and_children | replay_no_object_own_zone_and_above
   deriving Repr, DecidableEq, Inhabited
 
 def Clause.name : Clause → String
@@ -65,6 +66,9 @@ def Clause.name : Clause → String
   | .one_copy_per_endpoint => "one_copy_per_endpoint"
   | .master_by_names_and_connectedness => "master_by_names_and_connectedness"
   | .forwarded_when_reachable => "forwarded_when_reachable" | .same_master => "same_master"
+  | .replay_only_entitled => "replay_only_entitled"
+  | .replay_global_own_zone_and_children => "replay_global_own_zone_and_children"
+  | .replay_no_object_own_zone_and_above => "replay_no_object_own_zone_and_above"
 
 def nodupB : List Ep → Bool
   | [] => true
@@ -149,6 +153,18 @@ def specMasterPair (T : Topo) (a b : Ep) (ma mb : Option Ep) : Option Clause :=
   if !ok a ma || !ok b mb then some .master_by_names_and_connectedness
   else if sameView && ma != mb then some .same_master
   else none
+
+/-- The first sentence of the property on the REPLAY path: the node relayed a local event about an object whose zone
+    attribute was `objZone` at that time (`hasObject = false`: an event relayed without security object, which concerns the
+    node's zone and the zones above it), wrote it to its replay log, and later endpoint `target` connected.  If the event was
+    replayed to `target`, `target`'s zone must be entitled to it - whatever has happened to the object meanwhile.  The three
+    clause names separate the classes of objects (ordinary or no zone / global zone / no object). -/
+def specReplay (fuel : Nat) (T : Topo) (self : Ep) (hasObject : Bool) (objZone : Option Zone) (target : Ep) (replayed : Bool) :
+    Option Clause :=
+  if !replayed || entitledB fuel T self objZone (T.zoneOf target) then none
+  else if !hasObject then some .replay_no_object_own_zone_and_above
+  else if T.isGlobal (targetZone T self objZone) then some .replay_global_own_zone_and_children
+  else some .replay_only_entitled
 
 /-- what is observable of the model's relay step on node `self` -/
 def Result.obs (T : Topo) (self : Ep) (r : Result) : Obs :=
